@@ -19,6 +19,13 @@
 (*  "dbrp"   checkDBRPs: the batch source has one child per |query (InfluxQL)  *)
 (*           or |queryFlux node; BatchNode.DBRPs collects the sources of the    *)
 (*           InfluxQL children; queries are issued only if all are declared.    *)
+(*           A source is the (db, rp) pair AS WRITTEN in the FROM clause:        *)
+(*           db.rp.m, "db"."rp"."m", db..m / "db".."m" (empty rp), a bare        *)
+(*           measurement (both empty), several sources in one FROM.  The pair is  *)
+(*           looked up among the declared DBRPs as it stands - an empty rp is     *)
+(*           NOT resolved with TaskMaster.DefaultRetentionPolicy (that setting    *)
+(*           is for incoming writes; the statement goes to InfluxDB as written    *)
+(*           and InfluxDB applies its own default rp of that database).           *)
 (*                                                                             *)
 (* Time is in whole model units (seconds in the harness).  Conditions are      *)
 (* evaluated on a doubled time axis (tt = 2t, 2t+1) so that  time > v  and      *)
@@ -34,12 +41,14 @@ CONSTANTS
     Schedules,      \* set of task settings records (see SchedOK)
     Base,           \* first start time explored (a multiple of every `every`)
     SpanLens,       \* set of stop-start values explored
-    DBRPs,          \* universe of database/retention-policy names
-    ChildLists,     \* set of sequences of children of the batch source: [kind: "ql"|"flux", srcs: Seq(DBRPs)]
+    DBRPs,          \* universe of declarable database/retention-policy pairs [db, rp]
+    ChildLists,     \* set of sequences of children of the batch source: [kind: "ql"|"flux", srcs: Seq([db, rp])]
+    DefaultRPs,     \* values of TaskMaster.DefaultRetentionPolicy (kapacitor.conf default-retention-policy)
     WrapUser,       \* NewQuery parenthesises the user's condition         (TRUE = repaired code)
     TruncNext,      \* aligned timeTicker.Next truncates like the live one  (TRUE = repaired code)
     CloneSharesGB,  \* Clone keeps the group-by literals inside the cloned statement (TRUE = repaired code)
-    FluxEndsCollection \* BatchNode.DBRPs stops collecting at the first Flux child (FALSE = the code; TRUE = seeded defect)
+    FluxEndsCollection, \* BatchNode.DBRPs stops collecting at the first Flux child (FALSE = the code; TRUE = seeded defect)
+    ResolveEmptyRP  \* checkDBRPs fills an empty rp with DefaultRetentionPolicy before the lookup (FALSE = the code; TRUE = seeded defect)
 
 ----------------------------------------------------------------------------
 (* Condition trees *)
@@ -232,11 +241,11 @@ VARIABLES
     sch, span,              \* task settings; BatchQueries(start, stop) arguments
     cur, hist, hdone,       \* Queries() loop: `current`, the list built so far, loop left
     lprev, live, ldone,     \* live ticker started at span.start: last tick, queries issued, passed span.stop
-    declared, children, issued, refused
+    declared, children, defrp, issued, refused
 
 qvars == <<user, q, c, qT, cT, nops>>
 svars == <<sch, span, cur, hist, hdone, lprev, live, ldone>>
-dvars == <<declared, children, issued, refused>>
+dvars == <<declared, children, defrp, issued, refused>>
 vars  == <<mode, qvars, svars, dvars>>
 
 
@@ -245,7 +254,7 @@ Init ==
     /\ user = None /\ q = NoQ /\ c = NoQ /\ qT = <<ZeroT, ZeroT>> /\ cT = <<ZeroT, ZeroT>> /\ nops = 0
     /\ sch = NoSched /\ span = NoSpan /\ cur = 0 /\ hist = <<>> /\ hdone = TRUE
     /\ lprev = 0 /\ live = <<>> /\ ldone = TRUE
-    /\ declared = {} /\ children = <<>> /\ issued = {} /\ refused = FALSE
+    /\ declared = {} /\ children = <<>> /\ defrp = "" /\ issued = {} /\ refused = FALSE
 
 (* ---- Query object ---- *)
 NewQuery(u) ==
@@ -294,6 +303,14 @@ LiveTick ==
 
 (* ---- DBRPs: StartBatching / BatchQueries both run checkDBRPs first ---- *)
 SrcSet(srcs) == { srcs[i] : i \in DOMAIN srcs }
+Src(db, rp) == [db |-> db, rp |-> rp]
+(* the pair a FROM item denotes, by the way it is written (quoting makes no difference) *)
+SrcForms == {"full", "fullq", "norp", "norpq", "bare"}
+SrcOf(form, db, rp) == CASE form \in {"full", "fullq"} -> Src(db, rp)       \* db.rp.m   "db"."rp"."m"
+                         [] form \in {"norp", "norpq"} -> Src(db, "")       \* db..m     "db".."m"
+                         [] form = "bare"              -> Src("", "")       \* m
+(* what checkDBRPs looks up for a source *)
+Lookup(s, drp) == IF ResolveEmptyRP /\ s.rp = "" THEN [s EXCEPT !.rp = drp] ELSE s
 Child(kind, srcs) == [kind |-> kind, srcs |-> srcs]
 (* BatchNode.DBRPs: walk the children in order; an InfluxQL child contributes the *)
 (* sources of its statement, a Flux child has none.                                *)
@@ -304,12 +321,12 @@ Collect(ch) == IF ch = <<>> THEN <<>>
 (* what the InfluxQL children will query once they run *)
 AllQL(ch) == IF ch = <<>> THEN <<>>
              ELSE IF Head(ch).kind = "flux" THEN AllQL(Tail(ch)) ELSE Head(ch).srcs \o AllQL(Tail(ch))
-Allowed(decl, ch) == SrcSet(Collect(ch)) \subseteq decl          \* checkDBRPs
-AllDeclared(decl, ch) == SrcSet(AllQL(ch)) \subseteq decl        \* what the property demands
-StartBatch(decl, ch) ==
+Allowed(decl, ch, drp) == { Lookup(x, drp) : x \in SrcSet(Collect(ch)) } \subseteq decl    \* checkDBRPs
+AllDeclared(decl, ch) == SrcSet(AllQL(ch)) \subseteq decl        \* what the property demands: the pairs as written
+StartBatch(decl, ch, drp) ==
     /\ mode = "idle" /\ mode' = "dbrp"
-    /\ declared' = decl /\ children' = ch
-    /\ IF Allowed(decl, ch) THEN issued' = SrcSet(AllQL(ch)) /\ refused' = FALSE
+    /\ declared' = decl /\ children' = ch /\ defrp' = drp
+    /\ IF Allowed(decl, ch, drp) THEN issued' = SrcSet(AllQL(ch)) /\ refused' = FALSE
                             ELSE issued' = {} /\ refused' = TRUE
     /\ UNCHANGED <<qvars, svars>>
 
@@ -334,7 +351,7 @@ Next ==
     \/ mode = "idle" /\ \E s \in Schedules : \E p \in 0..((IF s.kind = "cron" THEN s.p ELSE s.every) - 1), n \in SpanLens :
           StartSpan(s, Base + p, Base + p + n)
     \/ HistStep \/ LiveTick
-    \/ mode = "idle" /\ \E d \in SUBSET DBRPs, ch \in ChildLists : StartBatch(d, ch)
+    \/ mode = "idle" /\ \E d \in SUBSET DBRPs, ch \in ChildLists, drp \in DefaultRPs : StartBatch(d, ch, drp)
 Spec == Init /\ [][Next]_vars
 
 ----------------------------------------------------------------------------
